@@ -676,24 +676,37 @@ def _evaluate(ctx, prop, cases, jobs, driver_ok, known, search=False):
 def run_replay(prop, path):
   with open(os.path.join(VERIF, path) if not os.path.isabs(path) else path) as f:
     rep = json.load(f)
+  known = [f for f in load_findings(prop.id) if f.get('status') == 'known']
+
+  def model_of(case):
+    if not (prop.driver and os.path.exists(Driver(prop.driver).path)):
+      return None
+    try:
+      r = prop.model_request(case)
+      return None if r is None else Driver(prop.driver).run([r])[0]
+    except InfraError as e:
+      print('model   : unavailable (%s)' % e)
+      return None
+
   if rep.get('kind') == 'failing-input':
     out, fail = check_case(prop, rep['input'])
     print('input   :', json.dumps(rep['input'])[:2000])
     print('observed:', json.dumps(out, default=str)[:2000])
-    if prop.driver and os.path.exists(Driver(prop.driver).path):
-      try:
-        r = prop.model_request(rep['input'])
-        if r is not None:
-          print('model   :', json.dumps(Driver(prop.driver).run([r])[0])[:2000])
-      except InfraError as e:
-        print('model   : unavailable (%s)' % e)
+    mo = model_of(rep['input'])
+    if mo is not None:
+      print('model   :', json.dumps(mo)[:2000])
     if fail:
+      matched = [f for f in known if signature_matches(f, fail['signature'])]
+      if matched:
+        print('KNOWN-FINDING: property=%s %s: %s' % (prop.id, matched[0]['id'], matched[0]['what_fails']))
+        print('oracle  : fails only in the way listed as known finding %s' % matched[0]['id'])
+        return 0
       print('oracle  : FAILS — %s' % fail.get('what'))
       print('VIOLATION property=%s replay=%s' % (prop.id, path))
       return 1
     print('oracle  : holds on this input now')
     return 0
-  # broken theorem / tie: re-run translate + build
+  # broken theorem / tie: re-run translate + build, and the first disagreeing input if recorded
   with BuildLock():
     from translate.common import TranslatorError
     broken = []
@@ -704,9 +717,20 @@ def run_replay(prop, path):
         broken.append('translator %s: %s' % (tr.__module__, e))
     ok, errors, _ = lake_build(prop.props_modules + ([prop.driver] if prop.driver else []))
     broken += ['%s (%s:%s)' % (e['decl'], e['file'], e['line']) for e in errors]
+  fd = rep.get('first_disagreement')
+  if fd and not broken:
+    out, fail = check_case(prop, fd['case'])
+    mo = model_of(fd['case'])
+    print('input   :', json.dumps(fd['case'])[:2000])
+    print('observed:', json.dumps(out, default=str)[:1500])
+    print('model   :', json.dumps(mo)[:1500])
+    if mo is not None:
+      d = prop.compare(fd['case'], out, mo)
+      if d:
+        broken.append('correspondence: %s' % d[:300])
   if broken:
     print('still broken:', '; '.join(broken))
     print('VIOLATION property=%s replay=%s no-failing-input-found' % (prop.id, path))
     return 1
-  print('proofs and translators check again (recorded: %s)' % [b['name'] for b in rep.get('broken', [])])
+  print('proofs, translators and correspondence check again (recorded: %s)' % [b['name'] for b in rep.get('broken', [])])
   return 0
